@@ -91,6 +91,16 @@ type Input struct {
 	LagSec           int64    `json:"lagSec"`
 	ExactIdentity    bool     `json:"exactIdentity"`
 	ByTag            bool     `json:"byTag"`
+	History          History  `json:"history"`
+}
+
+// History is what happened before on the shared signer object this round trip uses.
+type History struct {
+	Position    int     `json:"position"`
+	PrevKeySpec *string `json:"prevKeySpec"`
+	PrevKind    *string `json:"prevKind"`
+	PrevFormat  *string `json:"prevFormat"`
+	KeyVia      string  `json:"keyVia"`
 }
 
 type Obs struct {
@@ -123,15 +133,32 @@ type blobData struct {
 	abs     Blob
 }
 
+// signerObj is ONE signer object that lives for the whole run, with the history of its calls.
+type signerObj struct {
+	s      bothSigner
+	plugin *signPlugin // nil for the local signers
+	hist   History     // position / previous call
+}
+
+type bothVerifier interface {
+	notation.Verifier
+	notation.BlobVerifier
+}
+
 type world struct {
 	c     *common.Ctx
 	keys  map[string]*keyWorld
 	store *common.MemStore
 	blobs map[int][]*blobData // by size class
+	// shared objects: one GenericSigner per key and constructor, ONE PluginSigner per plugin kind
+	// (the key behind its key id changes between calls), ONE verifier per identity style
+	signers   map[string]*signerObj
+	verifiers map[bool]bothVerifier
 }
 
 func newWorld(c *common.Ctx) *world {
-	w := &world{c: c, keys: map[string]*keyWorld{}, store: common.NewMemStore(), blobs: map[int][]*blobData{}}
+	w := &world{c: c, keys: map[string]*keyWorld{}, store: common.NewMemStore(), blobs: map[int][]*blobData{},
+		signers: map[string]*signerObj{}, verifiers: map[bool]bothVerifier{}}
 	var roots []*x509.Certificate
 	for _, name := range specNames {
 		spec := specOf[name]
@@ -190,10 +217,27 @@ func (w *world) blob(size int) *blobData {
 
 // ---- honest in-process signing plugins -------------------------------------------------------
 
+// signPlugin signs honestly with the key that currently backs the key id: the key selected by
+// the request's plugin config ("c07.keyVersion"), else the current one (switched by rotation).
 type signPlugin struct {
-	kw       *keyWorld
-	spec     string
+	w        *world
+	current  string // abstract key spec name currently behind the key id
 	envelope bool
+}
+
+const keyVersionConfig = "c07.keyVersion"
+
+// key returns the key world and the wire key spec for a request's plugin config.
+func (p *signPlugin) key(config map[string]string) (*keyWorld, string) {
+	name := p.current
+	if v, ok := config[keyVersionConfig]; ok {
+		name = v
+	}
+	kw, ok := p.w.keys[name]
+	if !ok {
+		panic("c07: plugin asked for unknown key version " + name)
+	}
+	return kw, specOf[name]
 }
 
 func (p *signPlugin) GetMetadata(ctx context.Context, req *pluginfw.GetMetadataRequest) (*pluginfw.GetMetadataResponse, error) {
@@ -206,7 +250,8 @@ func (p *signPlugin) GetMetadata(ctx context.Context, req *pluginfw.GetMetadataR
 }
 
 func (p *signPlugin) DescribeKey(ctx context.Context, req *pluginfw.DescribeKeyRequest) (*pluginfw.DescribeKeyResponse, error) {
-	return &pluginfw.DescribeKeyResponse{KeyID: req.KeyID, KeySpec: pluginfw.KeySpec(p.spec)}, nil
+	_, spec := p.key(req.PluginConfig)
+	return &pluginfw.DescribeKeyResponse{KeyID: req.KeyID, KeySpec: pluginfw.KeySpec(spec)}, nil
 }
 
 var hashOfName = map[pluginfw.HashAlgorithm]crypto.Hash{
@@ -216,8 +261,9 @@ func (p *signPlugin) GenerateSignature(ctx context.Context, req *pluginfw.Genera
 	if p.envelope {
 		return nil, errors.New("not a raw signature plugin")
 	}
-	if string(req.KeySpec) != p.spec {
-		return nil, fmt.Errorf("key spec %q is not the spec of the key (%s)", req.KeySpec, p.spec)
+	kw, spec := p.key(req.PluginConfig)
+	if string(req.KeySpec) != spec {
+		return nil, fmt.Errorf("key spec %q is not the spec of the key (%s)", req.KeySpec, spec)
 	}
 	h, ok := hashOfName[req.Hash]
 	if !ok {
@@ -228,7 +274,7 @@ func (p *signPlugin) GenerateSignature(ctx context.Context, req *pluginfw.Genera
 	dg := hh.Sum(nil)
 	var sig []byte
 	var alg pluginfw.SignatureAlgorithm
-	switch k := p.kw.key.(type) {
+	switch k := kw.key.(type) {
 	case *rsa.PrivateKey:
 		s, err := rsa.SignPSS(rand.Reader, k, h, dg, &rsa.PSSOptions{SaltLength: rsa.PSSSaltLengthEqualsHash})
 		if err != nil {
@@ -252,7 +298,7 @@ func (p *signPlugin) GenerateSignature(ctx context.Context, req *pluginfw.Genera
 		return nil, errors.New("unsupported key")
 	}
 	var raw [][]byte
-	for _, c := range p.kw.chain.X509() {
+	for _, c := range kw.chain.X509() {
 		raw = append(raw, c.Raw)
 	}
 	return &pluginfw.GenerateSignatureResponse{KeyID: req.KeyID, Signature: sig, SigningAlgorithm: alg, CertificateChain: raw}, nil
@@ -262,7 +308,8 @@ func (p *signPlugin) GenerateEnvelope(ctx context.Context, req *pluginfw.Generat
 	if !p.envelope {
 		return nil, errors.New("not an envelope plugin")
 	}
-	ls, err := signature.NewLocalSigner(p.kw.chain.X509(), p.kw.key)
+	kw, _ := p.key(req.PluginConfig)
+	ls, err := signature.NewLocalSigner(kw.chain.X509(), kw.key)
 	if err != nil {
 		return nil, err
 	}
@@ -393,14 +440,18 @@ type signedCase struct {
 	signedMT string
 }
 
-func (w *world) newVerifier(in Input) (interface {
-	notation.Verifier
-	notation.BlobVerifier
-}, error) {
-	kw := w.keys[in.KeySpec]
+// sharedVerifier returns THE verifier object of an identity style (created once, used for every
+// verification of the run): wildcard identity, or the exact subjects of the six signing certificates.
+func (w *world) sharedVerifier(exact bool) bothVerifier {
+	if v, ok := w.verifiers[exact]; ok {
+		return v
+	}
 	ids := []string{"*"}
-	if in.ExactIdentity {
-		ids = []string{kw.subject}
+	if exact {
+		ids = nil
+		for _, name := range specNames {
+			ids = append(ids, w.keys[name].subject)
+		}
 	}
 	sv := trustpolicy.SignatureVerification{VerificationLevel: "strict",
 		Override: map[trustpolicy.ValidationType]trustpolicy.ValidationAction{trustpolicy.TypeRevocation: trustpolicy.ActionSkip}}
@@ -411,7 +462,12 @@ func (w *world) newVerifier(in Input) (interface {
 		BlobTrustPolicy: &trustpolicy.BlobDocument{Version: "1.0", TrustPolicies: []trustpolicy.BlobTrustPolicy{{
 			Name: "c07", SignatureVerification: sv, TrustStores: []string{"ca:c07"}, TrustedIdentities: ids, GlobalPolicy: true}}},
 	}
-	return verifier.NewVerifierWithOptions(w.store, opts)
+	v, err := verifier.NewVerifierWithOptions(w.store, opts)
+	if err != nil {
+		panic(fmt.Sprintf("c07: NewVerifierWithOptions: %v", err))
+	}
+	w.verifiers[exact] = v
+	return v
 }
 
 type bothSigner interface {
@@ -419,15 +475,25 @@ type bothSigner interface {
 	notation.BlobSigner
 }
 
-func (w *world) newSigner(in Input) bothSigner {
+// sharedSigner returns THE signer object a case signs with: one GenericSigner per key for each of
+// the two local constructors, and ONE PluginSigner per plugin kind whatever the key.
+func (w *world) sharedSigner(in Input) *signerObj {
+	id := in.Signer
+	if in.Signer == "localKey" || in.Signer == "localFiles" {
+		id += "/" + in.KeySpec
+	}
+	if o, ok := w.signers[id]; ok {
+		return o
+	}
 	kw := w.keys[in.KeySpec]
+	o := &signerObj{}
 	switch in.Signer {
 	case "localKey":
 		s, err := signer.NewGenericSigner(kw.key, kw.chain.X509())
 		if err != nil {
 			panic(fmt.Sprintf("c07: NewGenericSigner: %v", err))
 		}
-		return s
+		o.s = s
 	case "localFiles":
 		// NewFromFiles is NewGenericSignerFromFiles behind the notation.Signer interface
 		if _, err := signer.NewFromFiles(kw.keyPath, kw.certPath); err != nil {
@@ -437,15 +503,19 @@ func (w *world) newSigner(in Input) bothSigner {
 		if err != nil {
 			panic(fmt.Sprintf("c07: NewGenericSignerFromFiles: %v", err))
 		}
-		return s
+		o.s = s
 	case "pluginSignature", "pluginEnvelope":
-		s, err := signer.NewPluginSigner(&signPlugin{kw: kw, spec: specOf[in.KeySpec], envelope: in.Signer == "pluginEnvelope"}, "c07-key", nil)
+		o.plugin = &signPlugin{w: w, current: in.KeySpec, envelope: in.Signer == "pluginEnvelope"}
+		s, err := signer.NewPluginSigner(o.plugin, "c07-key", nil)
 		if err != nil {
 			panic(fmt.Sprintf("c07: NewPluginSigner: %v", err))
 		}
-		return s
+		o.s = s
+	default:
+		panic("c07: signer kind " + in.Signer)
 	}
-	panic("c07: signer kind " + in.Signer)
+	w.signers[id] = o
+	return o
 }
 
 func wantedMetadata(in Input) map[string]string {
@@ -488,9 +558,30 @@ const tagName = "v1"
 // sign runs the signing API; content is the artifact (oci) or the blob.
 func (w *world) sign(in Input, content []byte) *signedCase {
 	ctx := context.Background()
+	obj := w.sharedSigner(in)
+	// the history of the shared object is part of the case; this call becomes its last one
+	via := in.History.KeyVia
+	in.History = obj.hist
+	in.History.KeyVia = via
+	ks, kd, fm := in.KeySpec, in.Kind, in.Format
+	obj.hist = History{Position: obj.hist.Position + 1, PrevKeySpec: &ks, PrevKind: &kd, PrevFormat: &fm}
 	sc := &signedCase{in: in, content: content}
-	s := w.newSigner(in)
+	s := obj.s
 	sso := notation.SignerSignOptions{SignatureMediaType: formatOf[in.Format], ExpiryDuration: time.Duration(in.DurationNs), SigningAgent: in.Agent}
+	if obj.plugin != nil {
+		switch via {
+		case "rotated":
+			// the key behind the key id has been switched since the previous call
+			obj.plugin.current = in.KeySpec
+		case "pluginConfig":
+			// the key id keeps pointing at the previous key; this call selects a key version
+			sso.PluginConfig = map[string]string{keyVersionConfig: in.KeySpec}
+		default:
+			panic("c07: plugin signer needs keyVia rotated or pluginConfig")
+		}
+	} else if via != "fixed" {
+		panic("c07: local signer needs keyVia fixed")
+	}
 	var sig []byte
 	sigMT := formatOf[in.Format]
 	if in.Kind == "blob" {
@@ -545,11 +636,14 @@ func (w *world) sign(in Input, content []byte) *signedCase {
 	sc.obs.Signed = true
 	env, err := signature.ParseEnvelope(sigMT, sig)
 	if err != nil {
-		panic(fmt.Sprintf("c07: produced signature does not parse: %v", err))
+		// never matches the model: the signing API returned something that is not an envelope
+		sc.obs.Payload = &DescObs{Annotations: []KV{}, ExtraKeys: []string{"!envelope does not parse"}}
+		return sc
 	}
 	ec, err := env.Content()
 	if err != nil {
-		panic(fmt.Sprintf("c07: produced signature has no content: %v", err))
+		sc.obs.Payload = &DescObs{Annotations: []KV{}, ExtraKeys: []string{"!envelope has no content"}}
+		return sc
 	}
 	sc.obs.Payload = payloadObs(ec.Payload.Content)
 	st, ex := ec.SignerInfo.SignedAttributes.SigningTime, ec.SignerInfo.SignedAttributes.Expiry
@@ -569,10 +663,7 @@ func (w *world) sign(in Input, content []byte) *signedCase {
 func (w *world) verify(sc *signedCase) Obs {
 	ctx := context.Background()
 	in, o := sc.in, sc.obs
-	v, err := w.newVerifier(in)
-	if err != nil {
-		panic(fmt.Sprintf("c07: NewVerifierWithOptions: %v", err))
-	}
+	v := w.sharedVerifier(in.ExactIdentity)
 	var outcome *notation.VerificationOutcome
 	var returned ocispec.Descriptor
 	if in.Kind == "blob" {
@@ -590,20 +681,25 @@ func (w *world) verify(sc *signedCase) Obs {
 			return o
 		}
 		if len(vos) != 1 {
-			panic("c07: notation.Verify succeeded without exactly one outcome")
+			// never matches the model: success is reported with exactly one outcome
+			o.Verified = true
+			o.Payload = nil
+			return o
 		}
 		returned, outcome = d, vos[0]
 	}
 	o.Verified = true
 	if outcome.EnvelopeContent == nil {
-		panic("c07: verified outcome without envelope content")
+		// never matches the model: success without a verified payload
+		o.Payload = nil
+		return o
 	}
 	// the verified payload is what the outcome reports
 	o.Payload = payloadObs(outcome.EnvelopeContent.Payload.Content)
 	o.Returned = descObsOf(returned)
 	md, err := outcome.UserMetadata()
 	if err != nil {
-		panic(fmt.Sprintf("c07: UserMetadata: %v", err))
+		md = map[string]string{"!UserMetadata failed": err.Error()}
 	}
 	kvs := sortedKV(md)
 	o.UserMetadata = &kvs
@@ -612,7 +708,7 @@ func (w *world) verify(sc *signedCase) Obs {
 
 // roundTrip signs and verifies immediately; short expiries are aligned to the clock so that the
 // planned lag (0 s) is the real one.
-func (w *world) roundTrip(in Input, content []byte) Obs {
+func (w *world) roundTrip(in Input, content []byte) (Input, Obs) {
 	short := in.DurationNs > 0 && in.DurationNs < int64(10*time.Second)
 	for attempt := 0; ; attempt++ {
 		if short {
@@ -622,11 +718,11 @@ func (w *world) roundTrip(in Input, content []byte) Obs {
 		}
 		sc := w.sign(in, content)
 		if !sc.obs.Signed {
-			return sc.obs
+			return sc.in, sc.obs
 		}
 		o := w.verify(sc)
 		if !short || sc.expiry.IsZero() || time.Now().Before(sc.expiry) {
-			return o
+			return sc.in, o
 		}
 		if attempt >= 5 {
 			panic("c07: cannot complete a round trip within a short expiry")
@@ -742,6 +838,7 @@ func (w *world) genCase(c *common.Ctx) (Input, []byte) {
 	in.KeySpec = genKeySpec(c)
 	in.Format = pick(c, []string{"jws", "cose"})
 	in.Signer = pick(c, signerKinds)
+	setKeyVia(&in, pick(c, []string{"rotated", "pluginConfig"}))
 	in.NowFracNs = c.Rand.Int63n(1_000_000_000)
 	in.Agent = pick(c, agents)
 	in.ExactIdentity = chance(c, 0.4)
@@ -800,6 +897,15 @@ func (w *world) genCase(c *common.Ctx) (Input, []byte) {
 	return in, content
 }
 
+// setKeyVia records how the key is selected: local signer objects are bound to their key.
+func setKeyVia(in *Input, pluginVia string) {
+	if in.Signer == "localKey" || in.Signer == "localFiles" {
+		in.History.KeyVia = "fixed"
+	} else {
+		in.History.KeyVia = pluginVia
+	}
+}
+
 func mergeMaps(a, b map[string]string) map[string]string {
 	out := map[string]string{}
 	for k, v := range a {
@@ -845,6 +951,12 @@ func count(c *common.Ctx, in Input, o Obs) {
 	if in.LagSec > 0 {
 		c.Count("verifiedAfterExpiry")
 	}
+	c.Count("keyVia=" + in.History.KeyVia)
+	if in.History.PrevKeySpec != nil && in.History.KeyVia != "fixed" {
+		c.Count(fmt.Sprintf("sharedPluginSigner:keySpecChanged=%v", *in.History.PrevKeySpec != in.KeySpec))
+		c.Count(fmt.Sprintf("sharedPluginSigner:%s->%s", *in.History.PrevKind, in.Kind))
+		c.Count(fmt.Sprintf("sharedPluginSigner:formatChanged=%v", *in.History.PrevFormat != in.Format))
+	}
 }
 
 // Run generates the cases of C07.
@@ -876,7 +988,9 @@ func Run(c *common.Ctx) error {
 		in.LagSec = secs + int64(c.Rand.Intn(2))
 		sc := w.sign(in, content)
 		if !sc.obs.Signed {
-			panic("c07: a legal case with a short expiry was refused")
+			// a legal case was refused: that is an observation, not a harness failure
+			emit(sc.in, sc.obs)
+			continue
 		}
 		pending = append(pending, sc)
 	}
@@ -900,7 +1014,8 @@ func Run(c *common.Ctx) error {
 					}
 					in.VerifyMediaType, in.VerifyMetadata = pick(c, []string{"same", "unstated"}), pick(c, []string{"nothing", "all"})
 					in.DurationNs = int64(pick(c, legalDurations))
-					emit(in, w.roundTrip(in, content))
+					setKeyVia(&in, map[string]string{"jws": "rotated", "cose": "pluginConfig"}[f])
+					emit(w.roundTrip(in, content))
 				}
 			}
 		}
@@ -909,7 +1024,7 @@ func Run(c *common.Ctx) error {
 	// (3) random cases
 	for n := 0; n < random; n++ {
 		in, content := w.genCase(c)
-		emit(in, w.roundTrip(in, content))
+		emit(w.roundTrip(in, content))
 	}
 
 	// (4) complete the delayed cases
@@ -925,6 +1040,9 @@ func Run(c *common.Ctx) error {
 		"OCI cases go through registry.NewRepository over an oras memory store whose Resolve returns the generated descriptor with urls/platform/data/artifactType; " +
 		"full matrix 6 key specs x 2 formats x 4 signers x {oci, blob} plus random cases (legal and illegal metadata / durations / media types, " +
 		"blob sizes 0 B..4 MiB, verification stating the same / no / another media type and none / all / unsigned metadata) plus verification after a short expiry; " +
-		"lagSec is the planned class of the verification delay (0 = before the expiry, ensured by clock alignment and re-tried otherwise).")
+		"lagSec is the planned class of the verification delay (0 = before the expiry, ensured by clock alignment and re-tried otherwise). " +
+		"History: signer and verifier objects are SHARED by the whole run - one GenericSigner per key and constructor, ONE PluginSigner per plugin kind whose key (and key spec) " +
+		"behind the same key id changes between calls (rotation, or the per-call PluginConfig selecting a key version), SignBlob / SignOCI and JWS / COSE interleaved on the same object, " +
+		"ONE verifier per identity style (wildcard; the six exact subjects); input.history records position and previous call of the signer object.")
 	return nil
 }
